@@ -808,4 +808,22 @@ func c04FrameLen(c *Ctx) {
 		}
 	}
 	c.check(okC, "sendDataV2/header=length", c.pos(v2.Pos()), "the binary header carries the length handed in with the buffer", "sendDataV2's header does not carry its length parameter")
+	// (d) the protocol-1 sender: the header announces the length of the escaped buffer that is written after it
+	v1 := c.fn("trzszTransfer.sendData")
+	okD := false
+	var body ssa.Value
+	for _, ci := range callsIn(v1, idIs(tT+"writeAll")) {
+		if call, _ := callOf(ci.Common().Args[1]); call != nil && calleeID(&call.Call) == "trzsz.escapeData" {
+			body = ci.Common().Args[1]
+		}
+	}
+	for _, ci := range callsIn(v1, idIs("fmt.Sprintf")) {
+		if fm, _ := constString(ci.Common().Args[0]); strings.HasPrefix(fm, "#DATA:%d") {
+			el, ok := sliceElems(ci.Common().Args[1])
+			if ok && len(el) >= 1 && body != nil && isLenOf(strip(el[0].V), func(v ssa.Value) bool { return sameValue(v, body) }) {
+				okD = true
+			}
+		}
+	}
+	c.check(okD, "sendData/header=len(escaped)", c.pos(v1.Pos()), "the protocol-1 binary header announces the length of the escaped bytes written after it", "the protocol-1 binary header does not announce the length of the escaped buffer it is followed by (the receiver cuts the escaped stream short)")
 }
